@@ -33,7 +33,7 @@ Profile profile_for(const std::string &prop, int tier) {
         if (prop == "C04") { f.max_samples = tier ? 6000 : 2500; f.max_annos = 12; f.max_utcs = 12; }
     }
     else if (prop == "C05" || prop == "C14") {
-        f.reads_defs = true; f.annos = f.utcs = f.users = true; f.omit_ops = true; f.cblocks = true; f.gaps = true;
+        f.reads_defs = true; f.annos = f.utcs = f.users = true; f.omit_ops = true; f.cblocks = true; f.gaps = true; f.flushes = true;
         f.max_samples = tier ? 400000 : 30000; f.max_signals = 4; f.max_annos = 250; f.max_utcs = 250; f.max_users = 6; f.twr_share = 0.25; f.vsr_sigs = true;
     }
     else if (prop == "C06" || prop == "C07" || prop == "C08") {
